@@ -145,7 +145,7 @@ class _B:
             d = self.choice(DETS)
             if d in self.staged:
                 return [M("null")]
-            return [M("stage", d), M("null", None, "staged"), M("unstage", d)]
+            return [M("stage", d), M("null", None, "staged"), M("unstage", d), M("null", None, "unstaged"), M("sleep", None, 0.1)]
         return [M("null")]
 
     def run_body(self, key, n):
@@ -293,6 +293,10 @@ def _injection(draw, st, kinds):
 def cases(profile="general"):
     from hypothesis import strategies as st
 
+    runprobe = profile.endswith("_runprobe")
+    if runprobe:
+        profile = profile[: -len("_runprobe")]
+
     @st.composite
     def gen(draw):
         b = _B(draw, st, profile)
@@ -340,6 +344,8 @@ def cases(profile="general"):
             case["faults"] = [f]
         if draw(st.integers(0, 3)) == 0:
             case["re"] = {"record_interruptions": True}
+        if runprobe:
+            case["probe"] = "run"
         return case
 
     return gen()
